@@ -64,8 +64,7 @@ type Engine struct {
 	siteCache map[ssa.CallInstruction][]*ssa.Function
 	domCache  map[*ssa.Function]*postDom
 	lockCache map[*ssa.Function]*lockFacts
-	ctxCache  map[*ssa.Function][]LockCtx
-	ctxBusy   map[*ssa.Function]bool
+	ctx       *ctxState
 }
 
 func short(s string) string {
